@@ -29,6 +29,11 @@ func knownSite(src string, roots []ast.Node, prop string) string {
 				if prop == "C05" || prop == "C06" {
 					return "site:ChangeStreamForAll.All"
 				}
+			case *ast.AsTypeName:
+				// SELECT AS `value`: a type named value is printed without back quotes and re-read as SELECT AS VALUE
+				if prop == "C01" && x.TypeName != nil && len(x.TypeName.Path) == 1 && strings.EqualFold(x.TypeName.Path[0].Name, "VALUE") {
+					return "site:AsTypeName.value"
+				}
 			case *ast.SimpleType:
 				// only the back-quoted spelling is affected: End() = NamePos + len(Name) assumes the bare spelling
 				if p := int(x.NamePos); (prop == "C05" || prop == "C06") && 0 <= p && p < len(src) && src[p] == '`' {
@@ -51,7 +56,7 @@ func neutralise(site, src string) string {
 	}
 	type cut struct {
 		from, to int
-		repl string
+		repl     string
 	}
 	var cuts []cut
 	up := func(t token.Token) string { return strings.ToUpper(t.AsString) }
@@ -75,6 +80,10 @@ func neutralise(site, src string) string {
 				case "BOOL", "INT64", "FLOAT32", "FLOAT64", "DATE", "TIMESTAMP", "NUMERIC", "STRING", "BYTES", "JSON", "TOKENLIST":
 					cuts = append(cuts, cut{int(t.Pos), int(t.End), t.AsString})
 				}
+			}
+		case "site:AsTypeName.value":
+			if t.Kind == "AS" && toks[i+1].Kind == token.TokenIdent && strings.HasPrefix(toks[i+1].Raw, "`") && strings.EqualFold(toks[i+1].AsString, "VALUE") {
+				cuts = append(cuts, cut{int(toks[i+1].Pos), int(toks[i+1].End), "`valuex`"})
 			}
 		case "site:ChangeStreamForAll.All":
 			if t.Kind == "FOR" && toks[i+1].Kind == "ALL" {
